@@ -34,6 +34,8 @@ mod server_request;
 #[cfg(not(target_arch = "wasm32"))]
 pub mod stream;
 pub mod structs;
+#[cfg(feature = "verif-hooks")]
+pub mod verif_hooks;
 #[cfg(all(feature = "fleet-udp", not(target_arch = "wasm32")))]
 pub mod udp_client;
 #[cfg(all(feature = "fleet-udp", not(target_arch = "wasm32")))]
